@@ -1812,7 +1812,7 @@ def _run(chk, rng, thorough, ok, C, R, tmp):
                     explained += 1
                     continue
             bad_n += 1
-            chk.tie_break("convert-pipeline", info[i], short(got, 600), short(e, 600))
+            chk.tie_break("convert-pipeline", {k: v for k, v in info[i].items() if k != "_reverse"}, short(got, 600), short(e, 600))
     chk.ties["correspondence"] = {"suite": "pipeline over the directly modelled options + PDU rewrite (cmd 1807/1809/1810) vs convert()",
                                   "cases": len(lines), "disagreements": bad_n, "explained_by_known_finding": explained,
                                   "agree_in_the_other_undocumented_stage_order": tie_reverse_order}
